@@ -4,6 +4,71 @@ ROOT = os.path.dirname(os.path.dirname(os.path.abspath(__file__)))
 ALL = ["C%02d" % i for i in range(1, 21)]
 
 CHECKS = {
+ "C07": dict(
+   technique="Lean 4 proof over a faithful rule-engine model + engine correspondence through probe plug-ins + direct oracle sweep",
+   design_ref="DESIGN.md §6 C07",
+   text="Theorems over Verif.Model.Engine (PluginScanFailure.__lt__ is a strict weak order whose incomparability is key equality; printed list is "
+        "Pairwise-sorted by (line, column, rule id) and a permutation of the unsuppressed collected reports, also on the exception path; "
+        "uniqueness iff the rules' reports are unique; counter = printed; a raising callback is wrapped as that rule's fault and nothing runs after it). "
+        "The model is tied to the code by running probe rules (implemented twice: Lean and generated plug-ins) through the real `scan` and comparing printed "
+        "order, errors, exit status and call logs. The rule bodies are not modelled: range / uniqueness / crash-freedom / determinism are evaluated on real scans "
+        "of the document pool under default, all-enabled and each-rule-alone.",
+   note="Partial: 46 rule bodies explored, not proved. Trusted: Lean kernel, harness, probe-rule generator. Rule crashes on the pinned tree are recorded by call "
+        "site (rule, exception type, function) in known_findings.json."),
+ "C11": dict(
+   technique="Lean 4 proof over a faithful pragma model + engine/recognition correspondence + insertion differential on real rules",
+   design_ref="DESIGN.md §6 C11",
+   text="Theorems over Verif.Model.Pragma for every document / pragma text / id table: compile_targets (next-line hits n+1 only, num-lines N hits n+1..n+N), "
+        "suppressed_iff / document_suppressed_iff (a failure is swallowed iff some pragma covers that line and names that rule), malformed_suppresses_nothing, "
+        "resolve_ids_registered/_accounted, alias_invariance, pragma_invisible (the block parser is fed exactly the other lines, later ones numbered one higher), "
+        "pragma_lines_recorded. Tie: probe-rule scenarios with every pragma form through the real scan vs the model; look_for_pragmas vs isPragma on all short strings. "
+        "Oracle: scan and token stream of a document with a pragma inserted at every point vs the document without it.",
+   note="Partial for 'parses as if deleted' inside multi-line elements: on the pinned tree this fails (finding F-PRAGMA-INSIDE, footprint = the document does not split "
+        "cleanly at the insertion point); at clean split points the oracle is exact. ASCII case folding."),
+ "C12": dict(
+   technique="Lean 4 proof over the engine model + rule-field table regenerated from source (translator) + subset differential on real rules",
+   design_ref="DESIGN.md §6 C12",
+   text="union_collected / union_printed / disable_removes_own_only: for every rule set, state and event stream the interleaved dispatch collects a permutation of "
+        "what each rule collects alone and leaves each rule in the state it reaches alone; no_shared_writes / no_module_state by decide over Verif.Gen.RuleFields "
+        "(AST of every rule source, regenerated each run) against a reviewed baseline. Differential: each rule alone, all, default, default minus each on the document pool.",
+   note="Trusted: Lean kernel; rule_fields.py (syntactic abstraction: no setattr/__dict__ tricks), cross-checked by the differential; theorems assume no raising callback."),
+ "C13": dict(
+   technique="Lean 4 proof over the engine model + reset table regenerated from source (translator) + state snapshots + pair/triple differential",
+   design_ref="DESIGN.md §6 C13",
+   text="file_history_independent / run_history_independent / run_prefix_history_independent for rules whose starting_new_file is a total reset; exceptions_pinned, "
+        "reset_rhs_const, no_start_no_state by decide over Verif.Gen.RuleFields against the reviewed baseline of 20 written-before-read exceptions; reset_needed_witness. "
+        "Dynamic cross-check: vars(rule) after starting_new_file, fresh vs after a document. Differential: ordered pairs and triples of pool documents in one invocation "
+        "vs alone (scan default, scan all rules, fix), and a reused PyMarkdownApi object.",
+   note="Trusted: Lean kernel; rule_fields.py abstraction (cross-checked by snapshots); the baseline exceptions are claimed only on the explored sequences; parser statics "
+        "are covered by the differential only."),
+ "C14": dict(
+   technique="Lean 4 proof over the engine model + life-cycle correspondence through recording probe plug-ins",
+   design_ref="DESIGN.md §6 C14",
+   text="lifecycle_scan / lifecycle_files: for every rule set without raising callbacks and every file, each rule's call log grows by exactly start?, tokens?, "
+        "lines 1..n with exact text?, done(n+1)?; lines_numbered, lines_count. Tie: recording probes with every subset of overridden callbacks, enabled and disabled, "
+        "ids sorting before/between/after the built-ins, on empty / one-line / no-final-newline / pragma-only documents and multi-file runs: real call log vs model log "
+        "and vs the property's shape computed from the file text and the real token stream.",
+   note="Scan mode. The fix-mode pass shape is not yet modelled (DESIGN §8 F-LIFE). Trusted: Lean kernel, probe generator, str(token) as token identity."),
+ "C16": dict(
+   technique="Lean 4 proof over faithful models of the line providers, stdin/API spool and API argument assembly + provider/spool/argparse correspondence + four-way entry-point differential",
+   design_ref="DESIGN.md §6 C16, §5.1",
+   text="Theorems for all strings: joinNL_splitNL, splitNL_length, univNL_idem, fsp_eq_split (FileSourceProvider = splitNL∘univNL with the end-of-file flags characterised), "
+        "mem_eq_split, fsp_eq_mem, spool_idem (stdin→temp file→reader = direct read), api_args_equiv, log_args_inert. Tie: real providers vs model on all strings over "
+        "{a,space,LF,CR,TAB,é} of length ≤ 6; the temp file really written by __scan_from_stdin vs the model; __build_common_arguments, the real argparse parser and the real "
+        "enable/disable outcome vs apiArgs/parseArgs/cmdLineState. Oracle: scan file / scan-stdin (in-process and real subprocesses) / scan_string / scan_path and fix in place / "
+        "fix_path / fix_string on 401 documents × 12 rule selections; every log level × --stack-trace × log file leaves failures, exit code and files identical.",
+   note="Trusted: Lean kernel; harness canonicalisation; argparse modelled only for the option forms the API and user guide use; ASCII identifiers; os.linesep = LF. "
+        "Empty/whitespace-only strings are rejected by the API by documentation and excluded from scan_string/fix_string only. Findings: F-FIXSTR-NL, F-SPOOL-LOCALE."),
+ "C17": dict(
+   technique="Lean 4 proof over a faithful configuration model + tables regenerated from source and docs (translators) + exhaustive in-process correspondence",
+   design_ref="DESIGN.md §6 C17",
+   text="Theorems over Verif.Model.Config: merge_last_wins, layer_order (six-layer total order for every layer content, consistently named rule), cmdline_over_all, "
+        "disable_over_enable (+wildcard), alias_invariance (rule state and every setting), first_section_wins with the mixed-identifier witness, lenient_default / strict_error; "
+        "code_eq_doc / doc_layer_order / code_layer_order by decide over Verif.Gen.RuleMeta and Verif.Gen.DocTables, regenerated every run from a real PluginManager, the rule pages, "
+        "advanced_configuration.md and the AST of the loaders, modulo the committed Baseline.docDiffs. The real application is run in-process on the whole finite space (about 12k cases) "
+        "and compared with the compiled model and with the documented order written independently in Python.",
+   note="Trusted: Lean kernel; translators rule_meta.py / doc_tables.py; json/PyYAML/tomli parse the files; in-range/out-of-range values from a hand table; ASCII identifiers; "
+        "extensions' enable flags not covered. Findings: F-HARDLIST-MD033/-MD044/-PML100, F-MD043-DOCNAME."),
  "C18": dict(
    technique="Lean 4 proof over tables regenerated from source (translator) + process-level scenario correspondence",
    design_ref="DESIGN.md §6 C18",
@@ -13,7 +78,17 @@ CHECKS = {
         "produced in every way the application can (≈55 scenarios × 8 scheme selectors) and the real exit status is compared with "
         "the model and with the property's table.",
    note="Trusted: Lean kernel; translator exit_table.py (AST shape of the if-chain, reflection of the scheme maps, Markdown table "
-        "parse); scenario categories assigned by hand from the user guide; parser failures injected at transform_from_provider."),
+        "parse); scenario categories assigned by hand from the user guide; parser failures injected at transform_from_provider. Finding: F-NOFILES."),
+ "C19": dict(
+   technique="Lean 4 proof over a faithful model of application_file_scanner.py (+ modelled os.path/os.walk/glob/fnmatch) and a documentation-level spec; exhaustive in-process correspondence on materialised trees; end-to-end subset",
+   design_ref="DESIGN.md §6 C19",
+   text="Unbounded theorems on `discover`: sorted, no duplicate string, every result an eligible existing file, completeness w.r.t. the documented designation, error flag and "
+        "(without error) result independent of argument order, --recurse monotone; under Normalised arguments each file once and discover = spec (written from the user guide), "
+        "and the invocation outcome = documented outcome except exactly F-LIST / F-NOFILES (witness theorems for F-DUP, F-LIST, F-NOFILES). Tie: all 413 parent-closed trees "
+        "≤5 entries × 726 argument multisets × recurse × list × 4 extension strings: real determine_files_to_scan == model; glob.glob and fnmatch models validated every run; "
+        "end-to-end runs (scan, fix, scan -l, list_path).",
+   note="Trusted: Lean kernel; harness; modelled not verified: glob/fnmatch/os.path/os.walk (validated each run); POSIX, no symlinks, relative paths below cwd; "
+        "Normalised/WF hypotheses as stated."),
 }
 
 def main():
